@@ -106,6 +106,16 @@ PROPS = {
                 "with (depth, ranges); + 100 (600) space MOCs through NUNIQ FITS. distinct_nontrivial = distinct op lines with a non-empty MOC.",
         "explanation": "theorems: token-level ASCII round trip for every element list/order/dmax (incl. empty and unoccupied deepest level), big-endian and row pairing round trips, 2880 padding, NUNIQ code round trip; correspondence on real bytes for all formats and options",
     },
+    "C11": {
+        "trusted_base": COMMON_TB + ["word-level model of the FITS v2 ST rows; the bit test `start & end & MSB == MSB` is modelled as `both >= 2^(w-1)` (equal on w-bit words)"],
+        "assumptions": COMMON_ASSUME + [
+            "theorem hypothesis ElemOk: every element has a non-empty time part and a non-empty space part and no space row has both bounds >= 2^(w-1) (true of every HEALPix index); the necessity of the non-empty space part is a proved counterexample",
+            "ASCII ('t.. s..') and JSON ST syntaxes, header cards and depths are exercised by direct round trips on real bytes (test level), not modelled; u64 indices only"],
+        "rule": "800 (6000 thorough) ST-MOCs: empty (1 in 25), 1..many elements with multi-range time parts, one in five with a time range reaching the top of the time domain (2^62): FITS v2 written by the "
+                "real writer — its (start,end) rows = model rows (st_fits_enc), real reader on those rows = model reader (st_fits_dec), decoded value = original with both depths, re-serialisation gives the "
+                "same bytes; ASCII (fold 80) and JSON (fold 40) written and read back = original with both depths. distinct_nontrivial = distinct op lines with a non-empty MOC.",
+        "explanation": "theorems: FITS v2 row encoding inverted exactly for every element list (split on flag alternation), row count, empty MOC, necessity of non-empty space parts; correspondence on real files + direct ASCII/JSON round trips",
+    },
     "C12": {
         "trusted_base": COMMON_TB + ["the ASCII lexer model transliterates the nom combinators; serde_json and the FITS card readers are not modelled"],
         "assumptions": COMMON_ASSUME + [
